@@ -17,6 +17,16 @@ def deep_find(ig, desc, pred, depth=0, seen=None, through_args=False):
     if pred(desc):
         return desc
     k = desc.get("k")
+    if k == "p" and "i" in desc:
+        key = ("p", desc["i"])
+        if key in seen:
+            return None
+        seen.add(key)
+        for n, rhs in ig.param_defs(desc["i"]):
+            r = deep_find(ig, rhs, pred, depth + 1, seen, through_args)
+            if r is not None:
+                return r
+        return None
     if k == "l" and "fr" in desc:
         key = ("l", desc["fr"], desc.get("id"))
         if key in seen:
@@ -215,6 +225,9 @@ def defines_var(ig, node, var):
     if ev["e"] == "asg":
         lhs = strip_cast(ev.get("lhs"))
         return isinstance(lhs, dict) and lhs.get("k") == "l" and lhs.get("id") == var["id"]
+    if ev["e"] == "call" and ev.get("name") == "operator=":
+        th = strip_cast(ev.get("this"))
+        return isinstance(th, dict) and th.get("k") == "l" and th.get("id") == var["id"]
     return False
 
 
@@ -471,3 +484,73 @@ def reach_nullaware(ig, starts, var, removed_edges=(), removed=()):
                 seen.add((m.id, nst))
                 dq.append((m, nst))
     return out
+
+
+# ------------------------------------------------------------------ K9c special-member completeness
+def _event_descs(ev):
+    for key in ("this", "lhs", "rhs", "init", "v", "x", "fn"):
+        if key in ev and isinstance(ev[key], dict):
+            yield ev[key]
+    for a in ev.get("args", []) or []:
+        if isinstance(a, dict):
+            yield a
+    for a in ev.get("placement", []) or []:
+        if isinstance(a, dict):
+            yield a
+
+
+def touched_members(fn, rec_name, depth=3, _seen=None):
+    """(fields of rec_name referenced, base types referenced) by fn, following calls to the
+    record's own member functions (delegation to swap / operator= / delegating constructors)"""
+    if _seen is None:
+        _seen = set()
+    fields, bases = set(), set()
+    if fn.key in _seen or depth < 0:
+        return fields, bases
+    _seen.add(fn.key)
+    for _, ev in fn.all_events():
+        if ev["e"] == "init":
+            if "field" in ev and ev.get("rec") == rec_name and ev.get("written"):
+                fields.add(ev["field"])
+            if "base" in ev and ev.get("written"):
+                bases.add(ev["base"])
+        for d in _event_descs(ev):
+            for sd in walk(d):
+                if sd.get("k") == "f" and sd.get("rec") == rec_name:
+                    fields.add(sd.get("n"))
+        if ev["e"] in ("call", "ctor") and "cid" in ev:
+            callee = fn.tu.fns.get(ev["cid"])
+            if callee is not None and callee.record == rec_name and not callee.lambda_:
+                f2, b2 = touched_members(callee, rec_name, depth - 1, _seen)
+                fields |= f2
+                bases |= b2
+        if ev["e"] in ("call", "ctor") and ev.get("rec") and ev.get("rec") != rec_name:
+            bases.add(ev["rec"])
+    return fields, bases
+
+
+def check_special_members(ctx, rule, fb, rec_re, exceptions=None):
+    """every user-provided move-ctor / move-assign / swap of the matching records must reference every
+    non-static data member and every base that carries data"""
+    exceptions = exceptions or {}
+    rx = re.compile(rec_re)
+    recs = fb.records()
+    n = 0
+    for name, rec in sorted(recs.items()):
+        if not rx.search(name):
+            continue
+        fields = [f["name"] for f in rec["fields"] if f["name"]]
+        data_bases = [b["type"] for b in rec["bases"] if b.get("has_data")]
+        for fn in fb.find(pred=lambda f: f.record == name and f.has_cfg() and
+                          (f.kind in ("move_ctor", "move_assign") or f.name == "swap")):
+            n += 1
+            got, gb = touched_members(fn, name)
+            missing = [f for f in fields if f not in got and (name, f) not in exceptions]
+            missing_b = [b for b in data_bases if b not in gb]
+            ctx.ob(rule, "%s" % short(fn), not missing and not missing_b, fn.loc,
+                   "user-provided %s does not transfer member(s) %s%s: the moved-to object keeps stale state (and the "
+                   "source keeps what it should have given up)" %
+                   (fn.kind if fn.kind != "method" else "swap", missing,
+                    (" / base(s) %s" % missing_b) if missing_b else ""),
+                   site="%s@%s" % (name.replace("babylon::", ""), fn.kind if fn.kind != "method" else "swap"))
+    return n
